@@ -94,6 +94,9 @@ func (c *vCorpus) open() (*bluge.Reader, error) {
 
 var vModes = []searchMode{modeAll, modeTopN, modeNone}
 
+// runVModes: the search modes runV uses (narrowed to one while the conjunction variants run)
+var runVModes = vModes
+
 // altModel is the answer a known defect produces; used only to give failures of
 // exactly that form one stable key.
 type altModel struct {
@@ -138,7 +141,7 @@ func runV(c *vCorpus, res *explore.Result, text string, build func() bluge.Query
 		res.Counts["range_queries_aborted_in_preflight"]++
 		return
 	}
-	for _, mode := range vModes {
+	for _, mode := range runVModes {
 		res.Evals++
 		ids, err := runSearch(r, mode.mk(build(), 200))
 		fail := ""
@@ -416,7 +419,8 @@ func initGeo(param string) {
 		}
 	}
 	geoCorpus = mkVCorpus("geo", len(geoPts), func(id string, v int) *bluge.Document {
-		return bluge.NewDocument(id).AddField(bluge.NewGeoPointField("p", geoPts[v].lon, geoPts[v].lat))
+		return bluge.NewDocument(id).AddField(bluge.NewGeoPointField("p", geoPts[v].lon, geoPts[v].lat)).
+			AddField(bluge.NewKeywordField("t2", fmt.Sprint(v%2))).AddField(bluge.NewKeywordField("t3", fmt.Sprint(v%3)))
 	})
 	// boxes: every (top-left, bottom-right) over a corner grid, including
 	// date-line crossing (left > right) and inverted (top < bottom: empty) ones
@@ -521,6 +525,44 @@ func boxVerdict(b geoBox, p geoPt) int {
 	return -1
 }
 
+// geoConj runs the geo query once more as a clause of a conjunction, next to a
+// term clause that selects every second / every third document, in both clause
+// orders: the conjunction drives the geo clause with Advance onto candidates the
+// exact check rejects.  Expected: the geo verdict restricted to the tagged documents.
+func geoConj(res *explore.Result, text string, build func() bluge.Query, verdict func(v int) int, desc func(v int) string) {
+	saved := runVModes
+	defer func() { runVModes = saved }()
+	runVModes = []searchMode{modeAll}
+	for _, t := range []struct {
+		field    string
+		mod, rem int
+	}{{"t3", 3, 0}, {"t2", 2, 1}} {
+		for order := 0; order < 2; order++ {
+			if res.Failure != "" {
+				return
+			}
+			t, order := t, order
+			out, nt := res.Outcome, res.Nontrivial
+			term := func() bluge.Query { return bluge.NewTermQuery(fmt.Sprint(t.rem)).SetField(t.field) }
+			runV(geoCorpus, res, fmt.Sprintf("%s AND %s:%d (clause order %d)", text, t.field, t.rem, order),
+				func() bluge.Query {
+					if order == 0 {
+						return bluge.NewBooleanQuery().AddMust(term(), build())
+					}
+					return bluge.NewBooleanQuery().AddMust(build(), term())
+				},
+				func(v int) int {
+					if v%t.mod != t.rem {
+						return -1
+					}
+					return verdict(v)
+				}, desc)
+			res.Outcome = out + "|" + res.Outcome
+			res.Nontrivial += nt
+		}
+	}
+}
+
 func geoEval(idx int64, param string) *explore.Result {
 	res := &explore.Result{Counts: map[string]int64{}}
 	desc := func(v int) string { return fmt.Sprintf("(lon %v, lat %v)", geoPts[v].lon, geoPts[v].lat) }
@@ -533,6 +575,11 @@ func geoEval(idx int64, param string) *explore.Result {
 				return bluge.NewGeoBoundingBoxQuery(b.tlLon, b.tlLat, b.brLon, b.brLat).SetField("p")
 			},
 			func(v int) int { return boxVerdict(b, geoPts[v]) }, desc)
+		if res.Failure == "" {
+			geoConj(res, text, func() bluge.Query {
+				return bluge.NewGeoBoundingBoxQuery(b.tlLon, b.tlLat, b.brLon, b.brLat).SetField("p")
+			}, func(v int) int { return boxVerdict(b, geoPts[v]) }, desc)
+		}
 		if res.Failure == "" && idx%1000 == 0 {
 			res.Sample = map[string]interface{}{"enumeration": "c07-geo", "query": text, "expected_matches": res.Outcome}
 		}
@@ -544,5 +591,9 @@ func geoEval(idx int64, param string) *explore.Result {
 	runV(geoCorpus, res, text,
 		func() bluge.Query { return bluge.NewGeoDistanceQuery(c.lon, c.lat, c.dist).SetField("p") },
 		func(v int) int { return distVerdict(c.lon, c.lat, geoPts[v].lon, geoPts[v].lat, c.meters) }, desc)
+	if res.Failure == "" {
+		geoConj(res, text, func() bluge.Query { return bluge.NewGeoDistanceQuery(c.lon, c.lat, c.dist).SetField("p") },
+			func(v int) int { return distVerdict(c.lon, c.lat, geoPts[v].lon, geoPts[v].lat, c.meters) }, desc)
+	}
 	return res
 }
